@@ -2,13 +2,21 @@
 reference encoder is built from (DESIGN.md 3.2)."""
 
 
+class RefInputError(AssertionError):
+    """a reference encoder was handed a value its field cannot hold.  The reference encoders are fed (a) members of the checks'
+    alphabets, which are in range by construction (every alphabet is executed on the reference tree), and (b) values the
+    library REPORTED (a model that follows a getter, a header rebuilt from what an object says about itself).  On a tree where
+    (a) passes, this exception therefore means the library reported a value outside its field: the runner turns it into a
+    violation (signature <ID>.observed/value-outside-its-field), never into a harness error."""
+
+
 def pack_fields(fields) -> bytes:
     """fields: iterable of (value, nbits); total must be a whole number of octets."""
     acc = 0
     n = 0
     for value, nbits in fields:
         if not (isinstance(value, int) and 0 <= value < (1 << nbits)):
-            raise AssertionError("reference encoder given out-of-range field %r/%r" % (value, nbits))
+            raise RefInputError("reference encoder given out-of-range field %r/%r" % (value, nbits))
         acc = (acc << nbits) | value
         n += nbits
     if n % 8:
